@@ -19,6 +19,8 @@ func propC18(r *Report, tier string) {
 	ruleDateLineSplit(r, "K12-date-line-split")
 	ruleLatLonRoles(r, "K11-lat-lon-roles")
 	ruleGeoStepAgreement(r, "K11-geo-precision-step")
+	ruleScratchResetBeforeVisit(r, "K5-scratch-reset-before-visit", "search/searcher")
+	ruleAxisDiscipline(r, "K11-axis-discipline", "geo", "search/searcher", "search/query", "search")
 	r.Floor("K15-visitor-latch", 4)
 	r.Floor("K5-geo-post-filter", 4)
 	r.Floor("K12-date-line-split", 6)
